@@ -812,27 +812,29 @@ func alwaysErrorCall(c *ssa.Call, depth int) bool {
 
 // builderText: the text a local strings.Builder holds when String() is called at `at`: the
 // pieces written to it, in order. A piece written on every way to `at` is there; a piece
-// written on some ways only is optional; the pieces written inside a loop that has ended by
-// then repeat together.
+// written on some ways only is optional; what is written inside a loop that has ended by
+// then is the repetition of the ways through one iteration (a separator written under
+// "index > 0" in front of the rest makes it a join).
+type bwrite struct {
+	call *ssa.Call
+	text ssa.Value
+}
+
 func (x *Evaluator) builderText(al *ssa.Alloc, at *ssa.Call, e *env, c *evalCtx) Tmpl {
 	fn := al.Parent()
-	type write struct {
-		call *ssa.Call
-		text ssa.Value
-	}
-	var ws []write
+	var ws []bwrite
 	for _, ref := range *al.Referrers() {
 		call, ok := ref.(*ssa.Call)
-		if !ok || len(call.Call.Args) == 0 || call.Call.Args[0] != ssa.Value(al) {
-			if _, isDbg := ref.(*ssa.DebugRef); isDbg || ref == ssa.Instruction(at) {
+		if !ok {
+			if _, isDbg := ref.(*ssa.DebugRef); isDbg {
 				continue
 			}
-			if call != nil && call == at {
-				continue
-			}
-			if ok {
-				continue
-			}
+			return Tmpl{Unknown{"builder handed to other code"}}
+		}
+		if call == at {
+			continue
+		}
+		if len(call.Call.Args) == 0 || call.Call.Args[0] != ssa.Value(al) {
 			return Tmpl{Unknown{"builder handed to other code"}}
 		}
 		callee := call.Call.StaticCallee()
@@ -841,9 +843,9 @@ func (x *Evaluator) builderText(al *ssa.Alloc, at *ssa.Call, e *env, c *evalCtx)
 		}
 		switch callee.String() {
 		case "(*strings.Builder).WriteString":
-			ws = append(ws, write{call, call.Call.Args[1]})
+			ws = append(ws, bwrite{call, call.Call.Args[1]})
 		case "(*strings.Builder).WriteByte", "(*strings.Builder).WriteRune", "(*strings.Builder).Write":
-			ws = append(ws, write{call, nil})
+			ws = append(ws, bwrite{call, nil})
 		case "(*strings.Builder).String", "(*strings.Builder).Len", "(*strings.Builder).Grow":
 		case "(*strings.Builder).Reset":
 			return Tmpl{Unknown{"builder that is reset"}}
@@ -851,7 +853,6 @@ func (x *Evaluator) builderText(al *ssa.Alloc, at *ssa.Call, e *env, c *evalCtx)
 			return Tmpl{Unknown{"builder handed to " + callee.String()}}
 		}
 	}
-	// source order: block index, then position in the block
 	sort.Slice(ws, func(i, j int) bool {
 		bi, bj := ws[i].call.Block().Index, ws[j].call.Block().Index
 		if bi != bj {
@@ -864,13 +865,12 @@ func (x *Evaluator) builderText(al *ssa.Alloc, at *ssa.Call, e *env, c *evalCtx)
 	outerLoop := func(b *ssa.BasicBlock) *ssa.BasicBlock {
 		var out *ssa.BasicBlock
 		for h := loops[b]; h != nil; {
-			if loopBody(h)[at.Block()] {
+			body := loopBody(h)
+			if body[at.Block()] {
 				break
 			}
 			out = h
-			// next enclosing loop: the loop of the header's predecessors outside this body
 			var next *ssa.BasicBlock
-			body := loopBody(h)
 			for _, p := range h.Preds {
 				if !body[p] {
 					next = loops[p]
@@ -883,11 +883,23 @@ func (x *Evaluator) builderText(al *ssa.Alloc, at *ssa.Call, e *env, c *evalCtx)
 		}
 		return out
 	}
-	piece := func(w write) Tmpl {
+	piece := func(w bwrite) Tmpl {
 		if w.text == nil {
+			// a constant byte or rune is the character it stands for
+			if len(w.call.Call.Args) == 2 {
+				if k, ok := w.call.Call.Args[1].(*ssa.Const); ok && k.Value != nil && k.Value.Kind() == constant.Int {
+					if n, ok := constant.Int64Val(k.Value); ok && n > 0 && n < 0x110000 {
+						return lit(string(rune(n)))
+					}
+				}
+			}
 			return Tmpl{Unknown{"a byte or rune written to a builder"}}
 		}
 		return asTmpl(x.evalC(w.text, e, c))
+	}
+	writesIn := map[*ssa.BasicBlock][]bwrite{}
+	for _, w := range ws {
+		writesIn[w.call.Block()] = append(writesIn[w.call.Block()], w)
 	}
 	reach := x.reachable(e)
 	var out Tmpl
@@ -898,24 +910,10 @@ func (x *Evaluator) builderText(al *ssa.Alloc, at *ssa.Call, e *env, c *evalCtx)
 			continue
 		}
 		if h := outerLoop(w.call.Block()); h != nil {
-			var inner Tmpl
-			body := loopBody(h)
-			var latch *ssa.BasicBlock
-			for _, p := range h.Preds {
-				if body[p] {
-					latch = p
-				}
-			}
 			for i < len(ws) && outerLoop(ws[i].call.Block()) == h {
-				t := piece(ws[i])
-				if latch != nil && (ws[i].call.Block() == latch || ws[i].call.Block().Dominates(latch)) {
-					inner = cat(inner, t)
-				} else {
-					inner = cat(inner, mkAlt("", Tmpl{}, t))
-				}
 				i++
 			}
-			out = cat(out, Tmpl{Rep{inner}})
+			out = cat(out, x.builderLoop(h, writesIn, piece, loops, e, c))
 			continue
 		}
 		t := piece(w)
@@ -931,4 +929,134 @@ func (x *Evaluator) builderText(al *ssa.Alloc, at *ssa.Call, e *env, c *evalCtx)
 		i++
 	}
 	return out
+}
+
+// builderLoop: what one finished loop contributes to a builder.
+func (x *Evaluator) builderLoop(h *ssa.BasicBlock, writesIn map[*ssa.BasicBlock][]bwrite, piece func(bwrite) Tmpl, loops map[*ssa.BasicBlock]*ssa.BasicBlock, e *env, c *evalCtx) Tmpl {
+	body := loopBody(h)
+	// a nested loop: fall back to "each piece may or may not be written"
+	for b := range body {
+		if loops[b] != h && b != h {
+			var inner Tmpl
+			var blocks []*ssa.BasicBlock
+			for bb := range body {
+				blocks = append(blocks, bb)
+			}
+			sort.Slice(blocks, func(i, j int) bool { return blocks[i].Index < blocks[j].Index })
+			for _, bb := range blocks {
+				for _, w := range writesIn[bb] {
+					inner = cat(inner, mkAlt("", Tmpl{}, piece(w)))
+				}
+			}
+			return Tmpl{Rep{inner}}
+		}
+	}
+	// the separator idiom: if index > 0 { write(sep) } at the start of the iteration
+	var sepBlock *ssa.BasicBlock
+	var sep Tmpl
+	for b := range body {
+		cnd, neg := condOf(b)
+		bo, ok := cnd.(*ssa.BinOp)
+		if !ok || neg || len(b.Succs) != 2 {
+			continue
+		}
+		if !((bo.Op == token.GTR || bo.Op == token.NEQ) && isConstInt(bo.Y, 0) && rangeIndexOf(bo.X) == h) {
+			continue
+		}
+		t := b.Succs[0]
+		if len(t.Succs) == 1 && t.Succs[0] == b.Succs[1] && len(writesIn[t]) > 0 {
+			var sp Tmpl
+			for _, w := range writesIn[t] {
+				sp = cat(sp, piece(w))
+			}
+			if _, isLit := litOnly(sp); isLit {
+				sepBlock, sep = t, sp
+			}
+		}
+	}
+	// the ways through one iteration
+	var paths []Tmpl
+	var walk func(b *ssa.BasicBlock, acc Tmpl, seen map[*ssa.BasicBlock]bool)
+	walk = func(b *ssa.BasicBlock, acc Tmpl, seen map[*ssa.BasicBlock]bool) {
+		if len(paths) > 32 || seen[b] {
+			return
+		}
+		seen[b] = true
+		defer delete(seen, b)
+		if b != sepBlock {
+			for _, w := range writesIn[b] {
+				acc = cat(acc, piece(w))
+			}
+		}
+		for _, s := range b.Succs {
+			if s == h {
+				paths = append(paths, acc)
+				continue
+			}
+			if !body[s] {
+				continue // leaves the loop (break / return): what it wrote is not repeated
+			}
+			walk(s, acc, seen)
+		}
+	}
+	for _, s := range h.Succs {
+		if body[s] && s != h {
+			walk(s, nil, map[*ssa.BasicBlock]bool{h: true})
+		}
+	}
+	if len(paths) == 0 || len(paths) > 32 {
+		return Tmpl{Unknown{"loop writing to a builder"}}
+	}
+	var uniqP []Tmpl
+	seenT := map[string]bool{}
+	for _, p := range paths {
+		if k := p.String(); !seenT[k] {
+			seenT[k] = true
+			uniqP = append(uniqP, p)
+		}
+	}
+	// what the choice between the ways depends on: the first test in the iteration whose
+	// outcome is not known (a test on the text of a value is marked as such)
+	key := ""
+	if len(uniqP) > 1 {
+		var first *ssa.BasicBlock
+		for b := range body {
+			if b == h || len(b.Succs) != 2 || (sepBlock != nil && b.Succs[0] == sepBlock) {
+				continue
+			}
+			if _, ok := b.Instrs[len(b.Instrs)-1].(*ssa.If); !ok {
+				continue
+			}
+			if first == nil || b.Index < first.Index {
+				first = b
+			}
+		}
+		if first != nil {
+			ifi := first.Instrs[len(first.Instrs)-1].(*ssa.If)
+			if bv, ok := x.evalC(ifi.Cond, e, c).(BoolV); ok && bv.Const == nil {
+				d := bv.Desc
+				if d == "" {
+					d = ifi.Cond.Name()
+				}
+				if bv.Data != "" {
+					d = "data:" + d
+				}
+				key = "if:" + d
+			}
+		}
+	}
+	iter := mkAlt(key, uniqP...)
+	if len(uniqP) == 1 {
+		iter = uniqP[0]
+	}
+	if sepBlock != nil {
+		origin := "list"
+		if L := rangedList(h); L != nil {
+			if l, ok := x.evalC(L, e, c).(ListV); ok && l.Origin != "" {
+				origin = l.Origin
+			}
+		}
+		return Tmpl{Join{Elem: iter, Sep: sep, List: origin}}
+	}
+	return Tmpl{Rep{iter}}
 }
